@@ -61,7 +61,7 @@ def ops_for(alpha: List[Item]) -> List[Tuple]:
         ops.append(("insert0", i))
         ops.append(("insertmid", i))
         ops.append(("remove", i))
-    ops += [("extend", 0, 1), ("extend", 2, 0), ("pop",), ("pop0",), ("popmid",), ("clear",),
+    ops += [("extend", 0, 1), ("extendgen", 2, 0), ("extenditer", 1, 1), ("pop",), ("pop0",), ("popmid",), ("clear",),
             ("copy",), ("copycopy",), ("deepcopy",), ("pickle",), ("ctor",)]
     return ops
 
@@ -88,9 +88,17 @@ def apply_op(nil: Any, model: List[Item], op: Tuple, alpha: List[Item], cls: Any
     elif kind == "insertend":
         nil.insert(len(model), alpha[op[1]])
         model.insert(len(model), alpha[op[1]])
-    elif kind == "extend":
+    elif kind in ("extend", "extendgen", "extenditer", "extendtuple"):
+        # list.extend takes any iterable: a list, a tuple, and one-shot iterables
         xs = [alpha[i] for i in op[1:]]
-        nil.extend(xs)
+        arg: Any = xs
+        if kind == "extendgen":
+            arg = (x for x in xs)
+        elif kind == "extenditer":
+            arg = iter(tuple(xs))
+        elif kind == "extendtuple":
+            arg = tuple(xs)
+        nil.extend(arg)
         model.extend(xs)
     elif kind == "remove":
         x = alpha[op[1]]
@@ -297,14 +305,15 @@ def random_histories(task: Tuple, col: common.Collector) -> None:
             src = r.choice(alpha)
             alpha.append(Item(src.short_name, src.payload, src.tag + "'"))
         kinds = ["append"] * 6 + ["insert0", "insertmid", "insertend", "remove", "remove", "pop",
-                                  "pop0", "popmid", "extend", "copy", "copycopy", "ctor",
+                                  "pop0", "popmid", "extend", "extendgen", "extenditer",
+                                  "extendtuple", "copy", "copycopy", "ctor",
                                   "deepcopy", "pickle"] + (["clear"] if r.random() < 0.3 else [])
         hist: List[Tuple] = []
         for _ in range(length):
             k = r.choice(kinds)
             if k in ("append", "insert0", "insertmid", "insertend", "remove"):
                 hist.append((k, r.randrange(len(alpha))))
-            elif k == "extend":
+            elif k.startswith("extend"):
                 hist.append((k, r.randrange(len(alpha)), r.randrange(len(alpha))))
             else:
                 hist.append((k,))
